@@ -24,6 +24,7 @@ import (
 	"github.com/cosmos/cosmos-sdk/x/authz"
 	govtypes "github.com/cosmos/cosmos-sdk/x/gov/types"
 	v1 "github.com/cosmos/cosmos-sdk/x/gov/types/v1"
+	erc20types "github.com/functionx/fx-core/v8/x/erc20/types"
 
 	"fxverif/harness/hx"
 )
@@ -363,6 +364,46 @@ func (h *H) scenarioMidFlight() {
 
 // randomTxBlock: a block with one to three gov transactions on random routes (state-aware targets, boundary amounts, a
 // mixed-type or single-type submission)
+// scenario SameBlock (round 4): custom parameters rewritten by a proposal executed EARLIER IN THE SAME end-blocker walk.
+// The toggle type starts with (period 20, quorum 40 %).  1 (expedited MsgUpdateCustomParams: toggle type → period 25, quorum
+// 90 %), 3 (expedited toggle) and 4 (regular toggle) all end at 20; 1 is first in queue order, passes and executes, so 3 and
+// 4 — turnout 2/3, below the NEW quorum only — are tallied against the rewritten quorum: 3 is converted with the rewritten
+// period (end = start + 25), 4 is rejected.  Later 2 (regular MsgUpdateCustomParams removing the entry) and 5 (regular toggle,
+// turnout 2/3) end together at 60: 5 is tallied with the default quorum of that moment (40 %), the entry having been removed
+// by 2 just before — with the parameters of the block start (90 %) it would have been rejected.
+func (h *H) scenarioSameBlock() {
+	h.opParams(defaultParams())
+	for i := range h.accs {
+		h.opMint(i, 1_000_000)
+	}
+	url := sdk.MsgTypeURL(&erc20types.MsgToggleTokenConversion{})
+	h.opCustom(url, false, big0(), 20, frac(4, 10))
+	h.opSubmit(0, true, 5000, []pmsg{h.msgSetCustom(url, false, big0(), 25, frac(9, 10))}) // 1: end 20
+	h.opSubmit(1, false, 1000, []pmsg{h.msgSetCustom(url, true, nil, 0, nil)})              // 2: end 60
+	h.opSubmit(2, true, 5000, []pmsg{h.msgToggle(true)})                                    // 3: end 20
+	h.opSubmit(3, false, 1000, []pmsg{h.msgToggle(true)})                                   // 4: end 20
+	for v := range h.vals {
+		h.opVote(1, 100+v, one("yes"))
+		h.opVote(2, 100+v, one("yes"))
+	}
+	for _, pid := range []uint64{3, 4} {
+		h.opVote(pid, 100, one("yes"))
+		h.opVote(pid, 101, one("yes"))
+	}
+	h.opEndBlock(20)
+	h.opEndBlock(5) // time 20: 1 passes and sets (25 s, 90 %); then 3: quorum missed, converted, end = 25; then 4: rejected
+	for v := range h.vals {
+		h.opVote(3, 100+v, one("yes"))
+	}
+	h.opEndBlock(10)                                      // time 25: 3 tallied as a regular proposal, 3/3 ≥ 90 %
+	h.opSubmit(0, false, 1000, []pmsg{h.msgToggle(true)}) // 5 at time 35: period 25 (custom of that moment), end 60
+	h.opVote(5, 100, one("yes"))
+	h.opVote(5, 101, one("yes"))
+	h.opEndBlock(25)
+	h.opEndBlock(1) // time 60: 2 removes the entry, then 5 is tallied with the default quorum (2/3 ≥ 40 %): passed
+	h.opEndBlock(1)
+}
+
 func (h *H) randomTxBlock(sn snap, dt int64) {
 	r := h.rng
 	var items []txItem
